@@ -226,7 +226,7 @@ impl PublishProperties {
                 }
                 PropertyType::SubscriptionIdentifier => {
                     let (id_len, id) = length_in_frame(bytes.iter())?;
-                    cursor += 1 + id_len;
+                    cursor += id_len;
                     bytes.advance(id_len);
                     subscription_identifiers.push(id);
                 }
